@@ -8,6 +8,7 @@ use std::sync::Arc;
 use common::ticket;
 use parking_lot::Mutex;
 use swimos::agent::agent_lifecycle::HandlerContext;
+use swimos::agent::commander::Commander;
 use swimos::agent::event_handler::{BoxEventHandler, EventHandler, HandlerActionExt, Sequentially};
 use swimos::agent::lanes::{CommandLane, MapLane, SupplyLane, ValueLane};
 use swimos::agent::stores::{MapStore, ValueStore};
@@ -67,8 +68,13 @@ pub enum Act {
     #[form(tag = "clrs")]
     ClrS,
     /// Send a command to another agent's lane (target index chosen by the script).
+    /// mode 0: `send_command` (ad hoc, overwritable); 1: `Commander::send` (overwritable);
+    /// 2: `Commander::send_queued` (never superseded).
     #[form(tag = "send")]
-    Send { target: u32, v: u64, overwrite: bool },
+    Send { target: u32, v: u64, mode: u32 },
+    /// Record the state of the stores (observed after a restart).
+    #[form(tag = "dump")]
+    Dump,
     #[form(tag = "stop")]
     Stop,
 }
@@ -108,8 +114,10 @@ pub struct Rec {
     pub cmd_trace: Vec<(u64, u64)>,
     /// Items handed to the supply lane: (ticket, item).
     pub supplied: Vec<(u64, u64)>,
-    /// Commands handed to `send_command`: (ticket, target, value, overwrite).
-    pub sent: Vec<(u64, u32, u64, bool)>,
+    /// Commands handed to the send handlers: (ticket, target, value, mode).
+    pub sent: Vec<(u64, u32, u64, u32)>,
+    /// Store dumps: (ticket, vs, vt, ms).
+    pub dumps: Vec<(u64, u64, u64, BTreeMap<i32, u64>)>,
 }
 
 pub type SharedRec = Arc<Mutex<Rec>>;
@@ -117,8 +125,9 @@ pub type SharedRec = Arc<Mutex<Rec>>;
 #[derive(Clone)]
 pub struct TestLifecycle {
     pub rec: SharedRec,
-    /// Addresses of the command targets (node, lane) for `Act::Send`.
-    pub targets: Arc<Vec<(String, String)>>,
+    /// Addresses of the command targets (host, node, lane) for `Act::Send`.
+    pub targets: Arc<Vec<(Option<String>, String, String)>>,
+    pub commanders: Arc<Mutex<HashMap<u32, Commander<TestAgent>>>>,
 }
 
 fn key_of_m1(s: &str) -> i32 {
@@ -158,13 +167,50 @@ impl TestLifecycle {
             Act::UpdS { k, v } => context.update(TestAgent::MS, m1_key(k), v).boxed(),
             Act::RemS { k } => context.remove(TestAgent::MS, m1_key(k)).boxed(),
             Act::ClrS => context.clear(TestAgent::MS).boxed(),
-            Act::Send { target, v, overwrite } => {
-                let (node, lane) = self.targets.get(target as usize).cloned().unwrap_or_else(|| ("/none".to_string(), "none".to_string()));
-                context
-                    .effect(move || rec.lock().sent.push((ticket(), target, v, overwrite)))
-                    .followed_by(context.send_command(None, node.as_str(), lane.as_str(), v))
-                    .boxed()
+            Act::Send { target, v, mode } => {
+                let (host, node, lane) = self.targets.get(target as usize).cloned().unwrap_or_else(|| (None, "/none".to_string(), "none".to_string()));
+                let record = context.effect(move || rec.lock().sent.push((ticket(), target, v, mode)));
+                if mode == 0 {
+                    record.followed_by(context.send_command(host.as_deref(), node.as_str(), lane.as_str(), v)).boxed()
+                } else {
+                    let existing = self.commanders.lock().get(&target).copied();
+                    match existing {
+                        Some(c) => {
+                            if mode == 1 {
+                                record.followed_by(c.send(v)).boxed()
+                            } else {
+                                record.followed_by(c.send_queued(v)).boxed()
+                            }
+                        }
+                        None => {
+                            let commanders = self.commanders.clone();
+                            record
+                                .followed_by(context.create_commander(host.as_deref(), node.as_str(), lane.as_str()).and_then(move |c: Commander<TestAgent>| {
+                                    commanders.lock().insert(target, c);
+                                    if mode == 1 {
+                                        c.send(v)
+                                    } else {
+                                        c.send_queued(v)
+                                    }
+                                }))
+                                .boxed()
+                        }
+                    }
+                }
             }
+            Act::Dump => context
+                .get_value(TestAgent::VS)
+                .and_then(move |vs| {
+                    context.get_value(TestAgent::VT).and_then(move |vt| {
+                        context.get_map(TestAgent::MS).and_then(move |ms: HashMap<String, u64>| {
+                            context.effect(move || {
+                                let ms = ms.iter().map(|(k, v)| (key_of_m1(k), *v)).collect();
+                                rec.lock().dumps.push((ticket(), vs, vt, ms));
+                            })
+                        })
+                    })
+                })
+                .boxed(),
             Act::Stop => context.stop().boxed(),
         }
     }
